@@ -635,4 +635,3 @@ func inPath(p []string, a string) bool {
 	}
 	return false
 }
-
